@@ -56,17 +56,17 @@ type opRes struct {
 }
 
 type badOp struct {
-	Op   string `json:"op"`
-	A    string `json:"a"`
-	O    string `json:"o"`
-	Same string `json:"same"`
-	Msg  string `json:"msg,omitempty"`
-	Site string `json:"site,omitempty"`
-	Mode string `json:"mode"`
-	Seed string `json:"seed,omitempty"`
-	Prog []op   `json:"prog"`
-	Hex  string `json:"hex,omitempty"`
-	HexOf int   `json:"hexof"` // index of the witness of this summary that carries the input bytes
+	Op    string `json:"op"`
+	A     string `json:"a"`
+	O     string `json:"o"`
+	Same  string `json:"same"`
+	Msg   string `json:"msg,omitempty"`
+	Site  string `json:"site,omitempty"`
+	Mode  string `json:"mode"`
+	Seed  string `json:"seed,omitempty"`
+	Prog  []op   `json:"prog"`
+	Hex   string `json:"hex,omitempty"`
+	HexOf int    `json:"hexof"` // index of the witness of this summary that carries the input bytes
 }
 
 type summary struct {
@@ -86,16 +86,17 @@ type summary struct {
 }
 
 type env struct {
-	cm      *certModel
-	model   *inputs.Model
-	seeds   *inputs.Seeds
-	certs   map[string][]byte
-	parents map[string]*x509.Certificate // cache: issuer bytes + class -> candidate parent (nil = none)
-	childs  map[string]*x509.Certificate
-	allOps  []op
-	detail  bool
-	out     *obs.Writer
-	nsum    int
+	cm          *certModel
+	model       *inputs.Model
+	seeds       *inputs.Seeds
+	certs       map[string][]byte
+	parents     map[string]*x509.Certificate // cache: issuer bytes + class -> candidate parent (nil = none)
+	childs      map[string]*x509.Certificate
+	allOps      []op
+	detail      bool
+	jsonRepeats int
+	out         *obs.Writer
+	nsum        int
 }
 
 func seedBytes(s *inputs.Seeds, name string) []byte {
@@ -221,21 +222,22 @@ func (e *env) apply(cert *x509.Certificate, o op, mode string) (inputs.Result, s
 	switch o.Op {
 	case "MarshalJSON2":
 		f = func() error {
+			// "twice" = any two serialisations: serialise a few times (more often when one case is
+			// re-run, so that an order that varies from run to run is seen again) and compare each
+			// with the first
 			j1, err1 := json.Marshal(cert)
-			j2, err2 := json.Marshal(cert)
-			if err1 != nil || err2 != nil {
-				if (err1 == nil) != (err2 == nil) {
+			same = "same"
+			for i := 0; i < e.jsonRepeats; i++ {
+				j2, err2 := json.Marshal(cert)
+				if (err1 == nil) != (err2 == nil) || (err1 == nil && !bytes.Equal(j1, j2)) {
 					same = "differs"
 				}
-				if err1 != nil {
-					return err1
-				}
-				return err2
 			}
-			if bytes.Equal(j1, j2) {
-				same = "same"
-			} else {
-				same = "differs"
+			if err1 != nil {
+				if same == "same" {
+					same = "n/a"
+				}
+				return err1
 			}
 			return nil
 		}
@@ -522,7 +524,7 @@ func newEnv(certModelPath, inputsModelPath string) *env {
 	if repo == "" {
 		repo = "/repo"
 	}
-	e := &env{cm: cm, model: m, parents: map[string]*x509.Certificate{}, childs: map[string]*x509.Certificate{}, certs: map[string][]byte{}}
+	e := &env{cm: cm, model: m, jsonRepeats: 2, parents: map[string]*x509.Certificate{}, childs: map[string]*x509.Certificate{}, certs: map[string][]byte{}}
 	e.seeds = inputs.BuildSeeds(repo, fmt.Sprintf("c02-%d", obs.Seed()))
 	for _, sd := range e.seeds.ByKind["cert"] {
 		e.certs[sd.Name] = sd.Data
@@ -684,15 +686,27 @@ func main() {
 		var c replayCase
 		obs.ReadReplay(a[2], &c)
 		e.out = obs.NewWriter(a[3])
-		der, err := hex.DecodeString(c.Hex)
-		if err != nil || len(der) == 0 {
-			if c.Src != "shape" {
+		e.jsonRepeats = 16
+		var der []byte
+		if c.Src == "shape" {
+			// re-issue the certificate from the shape (fresh keys)
+			der = inputs.BuildShapeCert(inputs.Shape{X: c.X, V: c.V})
+		} else {
+			// re-concretise the mutation program on the named seed of this run; the recorded bytes
+			// are only a fallback (seeds are re-generated with fresh keys in every process)
+			for _, sd := range e.seeds.ByKind["cert"] {
+				if sd.Name == c.Seed {
+					if out, _, applied, err := e.model.Concretise(sd, c.P, obs.Seed()); err == nil && applied {
+						der = out
+					}
+				}
+			}
+			if der == nil {
+				der, _ = hex.DecodeString(c.Hex)
+			}
+			if len(der) == 0 {
 				obs.Fatal("replay: no input bytes")
 			}
-			der = inputs.BuildShapeCert(inputs.Shape{X: c.X, V: c.V})
-		} else if c.Src == "shape" {
-			// re-issue the certificate from the shape (fresh keys), the recorded bytes are only a fallback
-			der = inputs.BuildShapeCert(inputs.Shape{X: c.X, V: c.V})
 		}
 		prog := c.Prog
 		if len(prog) == 0 {
